@@ -96,11 +96,26 @@ def run(rep, tier, seed):
         depth = rng.choice([0, 1, 1, 2, 2, 3, 4])
         stack = tag_stack(rng, depth)
         t = apply_stack(base, stack)
+        if depth >= 1 and rng.random() < 0.35:
+            # siblings: two members of one record whose stacks differ in one number only (same class and
+            # form, so that their identifiers share the leading octet when the numbers are >= 31)
+            mode, cls, num = stack[-1]
+            other = stack[:-1] + [(mode, cls, num + rng.choice([1, 2, 97]))]
+            t = (rng.choice(['seq', 'set']), [('r', None, t), ('r', None, apply_stack(base, other))])
+            if rng.random() < 0.5:
+                t = ('seqof', t)
+            stack = []
+            depth = 0
+            siblings = True
+        else:
+            siblings = False
         if not gen.wf(t):
             continue
         v = g.val(t)
         canon = gen.ty_sexp(t) + ' ' + gen.val_sexp(v)
-        rep.case(canon, nontrivial=depth >= 1, sample={'type': gen.ty_sexp(t), 'value': gen.val_sexp(v)})
+        rep.case(canon, nontrivial=depth >= 1 or siblings, sample={'type': gen.ty_sexp(t), 'value': gen.val_sexp(v)})
+        if siblings:
+            rep.count('siblings')
         rep.count('depth=%d' % depth)
         rep.count('base=' + base[0])
         replay = {'kind': 'tags', 'type': gen.ty_sexp(t), 'value': gen.val_sexp(v)}
